@@ -160,6 +160,8 @@ class StmtMixin:
         v = self.eval(node.exc, fr)
         if isinstance(v, type) and issubclass(v, BaseException):
             v = Exc(v, ())
+        if isinstance(v, BaseException):
+            v = Exc(type(v), tuple(v.args))      # a real exception object built by concrete code
         if not isinstance(v, Exc):
             raise Untranslatable(f'raise of {v!r}')
         raise PyRaise(v)
